@@ -182,6 +182,14 @@ func (u *universe) twin(r *rand.Rand, s uSample, attr string) (uSample, bool) {
 			nl.lines[k].line += 5
 		case "line.col.last", "line.col.inner":
 			nl.lines[k].col += 5
+			if r.Intn(3) == 0 {
+				// (line 1, column 16) next to (line 17, column 0): different positions whose digits
+				// written one after the other read the same
+				src := cloneLoc(u.locs[t.locs[pos]])
+				src.lines[k].line, src.lines[k].col = 1, 16
+				nl.lines[k].line, nl.lines[k].col = 17, 0
+				s.locs[pos] = u.addLoc(src)
+			}
 		case "line.fn.inner":
 			f := u.fns[nl.lines[k].fn]
 			f.name += "y"
